@@ -27,6 +27,7 @@ class Scn:
         self.ncmd = self.nmodel = 0
         self.stats = {}
         self.pending_drift = None
+        self.obs = None
         self.trusted = set()     # (disk, sub) whose identity (inode/path + size + time-stamp) is unchanged by design: not re-read
         self.ok = True
 
@@ -42,7 +43,7 @@ class Scn:
         self.stats[k] = self.stats.get(k, 0) + 1
 
     # -------------------------------------------------------------------------------------------------
-    def sync(self, *opts, nocopy=False, prehash=False, nokill=False):
+    def sync(self, *opts, nocopy=False, prehash=False, nokill=False, real_opts=(), untied=False):
         """a sync with the model tie; returns (Result, content after) or (None, None) after a violation"""
         w = self.w
         if self.model and self.ok and c11_model.flush_drift(self):     # the previous sync passed every oracle: MODEL-DRIFT
@@ -50,12 +51,13 @@ class Scn:
         w.sync_store()
         st0 = w.content()
         lst = w.listing()
-        if self.model:
-            r = c11_model.sync_with_model(self, st0, lst, list(opts), nocopy=nocopy, prehash=prehash, nokill=nokill)
+        if self.model and not untied:
+            r = c11_model.sync_with_model(self, st0, lst, list(opts), nocopy=nocopy, prehash=prehash, nokill=nokill, real_opts=real_opts)
             if r is False:
                 return None, None
         else:
-            r = w.run('sync', *(list(opts) + (['-N'] if nocopy else []) + (['-h'] if prehash else []))); self.ncmd += 1
+            # options the sync model does not cover (-F, -R): judged by the oracles only
+            r = w.run('sync', *(list(opts) + (['-N'] if nocopy else []) + (['-h'] if prehash else []) + list(real_opts))); self.ncmd += 1
         st = w.content()
         return r, st
 
@@ -143,23 +145,73 @@ class Scn:
                 return self.bad('nocopy_fails', 'sync --force-nocopy exits %d / leaves unsynced blocks with a %s present' % (r.rc, 'decoy' if decoy else 'copy'))
             return self.final_check()
         before = a.snapshot_all()['parity'] if variant == 'prehash' else None
-        r, st = self.sync(prehash=(variant == 'prehash'))
-        if r is None or not self.judge(st, 'sync' + (' -h' if variant == 'prehash' else '')):
+        combo, ropts, untied, rng_opts = '', [], False, []
+        if variant == 'prehash':
+            # -h -N is refused by the option validation: a refusal changes nothing
+            snap0 = a.snapshot_all()
+            rr = w.run('sync', '-h', '-N'); self.ncmd += 1
+            snap1 = a.snapshot_all()
+            if rr.rc == 0 or snap0['parity'] != snap1['parity'] or snap0['content'] != snap1['content']:
+                return self.bad('prehash_nocopy_accepted', 'sync -h -N exits %d (the two options exclude each other) or changed parity/content' % rr.rc)
+            if self.rng.random() < 0.3:       # -D belongs to fix/check: with sync it is a refusal too, also next to -h
+                rr = w.run('sync', '-h', '-D'); self.ncmd += 1
+                snap1 = a.snapshot_all()
+                if rr.rc == 0 or snap0['parity'] != snap1['parity'] or snap0['content'] != snap1['content']:
+                    return self.bad('prehash_forcedevice_accepted', 'sync -h -D exits %d (-D is not a sync option) or changed parity/content' % rr.rc)
+            # every option the tool accepts together with -h: the hashing phase must run, and stop everything, under each of them
+            combos = ['-F', '', '-R', '-F -U', '-B', '-U', '-F -B', '-S', '-R -U', '-F', '-S -B', '']
+            combo = combos[(self.cfg.get('i', 0) // 12) % len(combos)] if 'i' in self.cfg else self.rng.choice(combos)
+            # something else is pending in other stripes: a sync that went on would have parity to write
+            w.write(td, 'zzz_first', self.rng.randbytes(self.rng.choice(MSIZES)))
+            for o_ in combo.split():
+                if o_ == '-B':
+                    rng_opts += ['-B', str(self.rng.randint(1, 6))]
+                elif o_ == '-S':
+                    rng_opts += ['-S', str(self.rng.randint(0, 3))]
+                else:
+                    ropts.append(o_)
+            untied = '-F' in ropts or '-R' in ropts
+            self.count('prehash_with_' + (combo.replace(' ', '') or 'nothing'))
+        r, st = self.sync(*rng_opts, prehash=(variant == 'prehash'), real_opts=ropts, untied=untied)
+        if r is None or not self.judge(st, 'sync' + (' -h ' + combo if variant == 'prehash' else '')):
             return
         f = self.entry(st, td, tsub)
+        if must_fail and rng_opts:
+            # a range: the hashing phase looks only at the blocks of the range; the decoy stops the sync when one of its blocks is inside
+            start = int(rng_opts[rng_opts.index('-S') + 1]) if '-S' in rng_opts else 0
+            end = start + int(rng_opts[rng_opts.index('-B') + 1]) if '-B' in rng_opts else 10**9
+            if f is None or not any(start <= b[1] < end for b in f['blocks']):
+                if f is not None and any(b[0] == 'BLK' for b in f['blocks'] if not (start <= b[1] < end)):
+                    return self.bad('decoy_blk', 'blocks of %s:%s outside the synced range became BLK' % (td, tsub))
+                self.count('prehash_decoy_outside_range')
+                return
         if must_fail:
             self.count('decoy_refused_' + variant)
             tags = [t for t in r.tag('error:') if ':%s:%s:' % (td, tsub) in t and 'Unexpected data change' in t]
             if r.rc == 0 or not tags:
                 return self.bad('decoy_accepted', 'sync%s exits %d with error tags %s although %s:%s carries inherited hashes that are not the hashes of its data'
-                                % (' -h' if variant == 'prehash' else '', r.rc, r.tag('error:')[:2], td, tsub))
+                                % (' -h ' + combo if variant == 'prehash' else '', r.rc, r.tag('error:')[:2], td, tsub))
             if f is None or any(b[0] == 'BLK' for b in f['blocks']):
                 return self.bad('decoy_blk', 'after the refused sync %s:%s has blocks recorded as synced: %s' % (td, tsub, f and [b[0] for b in f['blocks']]))
             if variant == 'prehash':
                 after = a.snapshot_all()['parity']
                 if any((before[k] or b'') != (after[k] or b'') for k in before):
-                    return self.bad('prehash_parity', 'sync -h met a decoy in the hashing phase but parity bytes changed')
+                    return self.bad('prehash_parity', 'sync -h %s met a decoy in the hashing phase (exit %d) but parity bytes changed' % (combo, r.rc))
                 # nothing may have become BLK in this run
+            if variant == 'plain' and self.cfg.get('i', 0) % 4 == 0:
+                # OBSERVATION (not a C19 violation: nothing is recorded as synced, and what fix takes from the duplicate does match the
+                # recorded -- inherited -- hash): after the refused sync the provisional hashes are in the content file, and check / fix
+                # take them for the truth about the user's distinct, never synced file
+                mine = open(w.p(td, tsub), 'rb').read()
+                theirs = open(w.p(sd, ssub), 'rb').read()
+                rc_ = w.run('check'); self.ncmd += 1
+                rf = w.run('fix'); self.ncmd += 1
+                now = open(w.p(td, tsub), 'rb').read() if os.path.isfile(w.p(td, tsub)) else None
+                self.count('obs_fix_after_refused_copy')
+                if now == theirs and now != mine:
+                    self.count('obs_fix_overwrote_unsynced_file_with_the_source_of_its_inherited_hashes')
+                    self.obs = 'after a sync refused a decoy copy (%s:%s, inherited REP hashes saved), check exits %d calling the file recoverable and a plain fix exits %d and OVERWRITES the user\'s distinct unsynced file with the bytes of %s:%s' % (td, tsub, rc_.rc, rf.rc, sd, ssub)
+                return
             # a second attempt must not accept it either: the provisional hashes survived the refused sync, now LOADED from the
             # content file (the COPY flag of the first scan is gone); with -h again, and another change pending in other
             # stripes, still no parity byte may change
@@ -196,8 +248,12 @@ class Scn:
             if r.rc != 0 or not self.all_blk(st):
                 return self.bad('recovery_fails', 'after removing the cause the sync exits %d' % r.rc)
         else:
+            if rng_opts and r.rc == 0:
+                r, st = self.sync()           # the range left work: finish it
+                if r is None or not self.judge(st, 'the completing sync'):
+                    return
             if r.rc != 0 or not self.all_blk(st):
-                return self.bad('sync_fails', 'sync%s exits %d / leaves unsynced blocks although every file can be read and verified' % (' -h' if variant == 'prehash' else '', r.rc),
+                return self.bad('sync_fails', 'sync%s exits %d / leaves unsynced blocks although every file can be read and verified' % (' -h ' + combo if variant == 'prehash' else '', r.rc),
                                 err=r.err[-400:])
         return self.final_check()
 
@@ -660,6 +716,8 @@ def main(tier, replay=None):
     with cf.ThreadPoolExecutor(max_workers=min(8, NCPU)) as ex:
         for S in ex.map(lambda c: run_one(chk, binary, shim, model, c), cfgs):
             ncmd += S.ncmd; nmodel += S.nmodel
+            if S.obs and not any(n.startswith('OBSERVATION') for n in chk.notes):
+                chk.notes.append('OBSERVATION (C05/C12 territory, C19 holds by its letter): ' + S.obs)
             for k, v in S.stats.items():
                 stats[k] = stats.get(k, 0) + v
             if len(samples) < 4 and S.cfg['kind'] not in [s['config']['kind'] for s in samples]:
